@@ -125,6 +125,19 @@ func unmarshalText[T constraint.ParserInput](input T, r Rule) (Size, error) {
 }
 
 func unmarshalJSON[T constraint.ParserInput](input T, r Rule) (Size, error) {
+	size, err := unmarshalJSONValue(input, r)
+	if err != nil {
+		return 0, err
+	}
+	// json.Decoder.Token reads only the first value and does not require closing delimiter of an object,
+	// but the whole input must be exactly one valid JSON value
+	if !json.Valid([]byte(input)) {
+		return 0, newParseError(defaultParserFuncName, input, nil)
+	}
+	return size, nil
+}
+
+func unmarshalJSONValue[T constraint.ParserInput](input T, r Rule) (Size, error) {
 	d := json.NewDecoder(bytes.NewReader([]byte(input)))
 	d.UseNumber()
 	t, err := d.Token()
